@@ -1005,6 +1005,8 @@ class Interp:
         if isinstance(it, (range, types.GeneratorType, map, filter, zip, enumerate, reversed)) or \
                 hasattr(it, '__next__'):
             return list(it)
+        if isinstance(it, (type({}.items()), type({}.keys()), type({}.values()))):
+            return [from_native(x) if isinstance(x, tuple) else x for x in it]
         if isinstance(it, ConcreteIter):
             return it.rest()
         if isinstance(it, DictView):
